@@ -47,6 +47,7 @@ type sseSession struct {
 	notificationChannel chan *JSONRPCNotification // Channel for notifications.
 	initialized         atomic.Bool               // Whether the session has been initialized.
 	writeMu             sync.Mutex                // Write mutex to prevent concurrent writes.
+	writerGone          bool                      // Set under writeMu when the stream's handler returns: no more writes.
 	createdAt           time.Time                 // Session creation time.
 	lastActivity        time.Time                 // Last activity time.
 	data                map[string]interface{}    // Session data.
@@ -464,6 +465,12 @@ func (s *SSEServer) handleSSE(w http.ResponseWriter, r *http.Request) {
 	// Clean up resources.
 	closeSessionDone(s.logger, session)
 	s.sessions.Delete(sessionID)
+
+	// The session's writer goroutines may be in the middle of a write. Wait for it and keep them off
+	// the ResponseWriter, which must not be used once this handler has returned.
+	session.writeMu.Lock()
+	session.writerGone = true
+	session.writeMu.Unlock()
 	s.logger.Debugf("Cleaned up session %s", sessionID)
 }
 
@@ -534,6 +541,10 @@ func handleNotifications(ctx context.Context, logger Logger, w http.ResponseWrit
 			}
 
 			session.writeMu.Lock()
+			if session.writerGone {
+				session.writeMu.Unlock()
+				return
+			}
 			fmt.Fprintf(w, "event: message\ndata: %s\n\n", data)
 			safeFlush(logger, flusher)
 			session.writeMu.Unlock()
@@ -561,6 +572,10 @@ func handleEventQueue(ctx context.Context, logger Logger, w http.ResponseWriter,
 		select {
 		case event := <-session.eventQueue:
 			session.writeMu.Lock()
+			if session.writerGone {
+				session.writeMu.Unlock()
+				return
+			}
 			fmt.Fprint(w, event)
 			safeFlush(logger, flusher)
 			session.writeMu.Unlock()
@@ -592,6 +607,10 @@ func handleKeepAlive(ctx context.Context, logger Logger, w http.ResponseWriter, 
 		select {
 		case <-ticker.C:
 			session.writeMu.Lock()
+			if session.writerGone {
+				session.writeMu.Unlock()
+				return
+			}
 			fmt.Fprint(w, ": keepalive\n\n")
 			safeFlush(logger, flusher)
 			session.writeMu.Unlock()
